@@ -768,6 +768,17 @@ func (d *DataChannel) collectStats(collector *statsReportCollector) {
 	collector.Collect(stats.ID, stats)
 }
 
+// setReadyState only ever moves the state forward
+// (connecting -> open -> closing -> closed): a transition racing with a
+// later one must not bring an earlier state back.
 func (d *DataChannel) setReadyState(r DataChannelState) {
-	d.readyState.Store(r)
+	for {
+		cur := d.readyState.Load()
+		if state, ok := cur.(DataChannelState); ok && state >= r {
+			return
+		}
+		if d.readyState.CompareAndSwap(cur, r) {
+			return
+		}
+	}
 }
